@@ -168,8 +168,8 @@ impl<L: Language, N: Analysis<L>> EGraph<L, N> {
         let l_node = alpha_normalize(&self.semify_enode(self.get_syn_node(l)));
         let r_node = alpha_normalize(&self.semify_enode(self.get_syn_node(r)));
 
-        let null_l = nullify_app_ids(&l_node);
-        let null_r = nullify_app_ids(&r_node);
+        let null_l = alpha_normalize(&nullify_app_ids(&l_node));
+        let null_r = alpha_normalize(&nullify_app_ids(&r_node));
         assert_eq!(null_l, null_r);
 
         let n = l_node.applied_id_occurrences().len();
